@@ -1,7 +1,7 @@
 /* Concurrency harness for C13.
  *   conc sched  <kind> <program-file> <schedules-file> <out.ndjson>    deterministic replay of TLC schedules
  *   conc stress <kind> <threads> <ops/thread/round> <rounds> <seed> <out.ndjson>   free-running rounds
- * kind: vector | list | hashtbl | treetbl | listtbl | listtblu (unique option)   (containers created with their thread-safe option)
+ * kind: vector | list | queue | stack | hashtbl | treetbl | listtbl | listtblu (unique option)   (containers created with their thread-safe option)
  * program-file: one line per thread: op a b ; op a b ; ...
  * schedules-file: one line per schedule: thread ids (1-based) separated by blanks; each id lets that thread run up
  *   to its next scheduling point (call boundary, before an outermost lock acquisition, after an outermost release).
@@ -20,12 +20,15 @@
 #define MAXOPS 64
 typedef struct { char op[12]; int a, b; long inv, res; int out; int nouts; int outs[64][2]; } oprec;
 static oprec prog[MAXT][MAXOPS]; static int nops[MAXT]; static int NT;
-enum { K_VECTOR, K_LIST, K_HASHTBL, K_TREETBL, K_LISTTBL, K_LISTTBLU };
+enum { K_VECTOR, K_LIST, K_HASHTBL, K_TREETBL, K_LISTTBL, K_LISTTBLU, K_QUEUE, K_STACK };
+#define ISSEQ (K == K_VECTOR || K == K_LIST || K == K_QUEUE || K == K_STACK)
 static int K; static const char *kindname;
-static qvector_t *V; static qlist_t *L; static qhashtbl_t *HT; static qtreetbl_t *TT; static qlisttbl_t *LT;
+static qvector_t *V; static qlist_t *L; static qhashtbl_t *HT; static qtreetbl_t *TT; static qlisttbl_t *LT; static qqueue_t *QU; static qstack_t *ST;
 
 static void mk(void) {
-    V = NULL; L = NULL; HT = NULL; TT = NULL; LT = NULL;
+    V = NULL; L = NULL; HT = NULL; TT = NULL; LT = NULL; QU = NULL; ST = NULL;
+    if (K == K_QUEUE) { QU = qqueue(QQUEUE_THREADSAFE); return; }
+    if (K == K_STACK) { ST = qstack(QSTACK_THREADSAFE); return; }
     if (K == K_VECTOR) V = qvector(0, sizeof(int), QVECTOR_THREADSAFE);
     else if (K == K_LIST) L = qlist(QLIST_THREADSAFE);
     else if (K == K_HASHTBL) HT = qhashtbl(3, QHASHTBL_THREADSAFE);
@@ -33,7 +36,7 @@ static void mk(void) {
     else LT = qlisttbl(K == K_LISTTBLU ? (QLISTTBL_THREADSAFE | QLISTTBL_UNIQUE) : QLISTTBL_THREADSAFE);
 }
 static void rel(void) {
-    if (V) V->free(V); if (L) L->free(L); if (HT) HT->free(HT); if (TT) TT->free(TT); if (LT) LT->free(LT);
+    if (V) V->free(V); if (L) L->free(L); if (HT) HT->free(HT); if (TT) TT->free(TT); if (LT) LT->free(LT); if (QU) QU->free(QU); if (ST) ST->free(ST);
 }
 static const char *keyname(int k) { static const char *n[] = {"k0", "k1", "k2", "k3", "k4", "k5", "k6", "k7"}; return n[k & 7]; }
 static int keyof(const char *s) { return (s && s[0] == 'k') ? atoi(s + 1) : -1; }
@@ -62,6 +65,16 @@ static void run_op(oprec *o) {
             V->unlock(V);
             o->out = o->nouts;
         }
+    } else if (K == K_QUEUE) {
+        if (!strcmp(o->op, "addlast")) o->out = QU->push(QU, &x, sizeof x);
+        else if (!strcmp(o->op, "popfirst")) { p = QU->pop(QU, &sz); o->out = p ? *(int *) p : 0; free(p); }
+        else if (!strcmp(o->op, "getat")) { p = QU->getat(QU, o->a, &sz, true); o->out = p ? *(int *) p : 0; free(p); }
+        else if (!strcmp(o->op, "clear")) { QU->clear(QU); o->out = 1; }
+    } else if (K == K_STACK) {
+        if (!strcmp(o->op, "addfirst")) o->out = ST->push(ST, &x, sizeof x);
+        else if (!strcmp(o->op, "popfirst")) { p = ST->pop(ST, &sz); o->out = p ? *(int *) p : 0; free(p); }
+        else if (!strcmp(o->op, "getat")) { p = ST->getat(ST, o->a, &sz, true); o->out = p ? *(int *) p : 0; free(p); }
+        else if (!strcmp(o->op, "clear")) { ST->clear(ST); o->out = 1; }
     } else if (K == K_LIST) {
         if (!strcmp(o->op, "addlast")) o->out = L->addlast(L, &x, sizeof x);
         else if (!strcmp(o->op, "addfirst")) o->out = L->addfirst(L, &x, sizeof x);
@@ -136,7 +149,7 @@ static void snapshot(vh_buf *b) {
     vh_bprintf(b, "[");
     int first = 1;
     if (K == K_VECTOR) for (size_t j = 0; j < V->num; j++) vh_bprintf(b, "%s%d", j ? "," : "", ((int *) V->data)[j]);
-    else if (K == K_LIST) for (qlist_obj_t *o = L->first; o; o = o->next) { vh_bprintf(b, "%s%d", first ? "" : ",", *(int *) o->data); first = 0; }
+    else if (K == K_LIST || K == K_QUEUE || K == K_STACK) for (qlist_obj_t *o = (K == K_LIST ? L : K == K_QUEUE ? QU->list : ST->list)->first; o; o = o->next) { vh_bprintf(b, "%s%d", first ? "" : ",", *(int *) o->data); first = 0; }
     else if (K == K_HASHTBL) {
         for (int k = 0; k < 8; k++)
             for (size_t i = 0; i < HT->range; i++)
@@ -208,7 +221,7 @@ static int run_sched(const char *progf, const char *schedf, const char *outf) {
     FILE *sf = fopen(schedf, "r"); if (!sf) return 2;
     vh_open(outf);
     vh_hook_before_lock = h_before; vh_hook_locked = h_locked; vh_hook_unlocked = h_unlocked; vh_hook_lock_failed = h_lockfail;
-    int pairs = (K >= K_HASHTBL);
+    int pairs = !ISSEQ;
     char line[4096]; vh_buf b = {0};
     for (int t = 0; t < MAXT; t++) sem_init(&go[t], 0, 0);
     sem_init(&back, 0, 0);
@@ -249,7 +262,13 @@ static vh_buf sb; static char *prev_final;
 static void gen_op(oprec *o, unsigned *rs) {
     memset(o, 0, sizeof *o);
     *rs = *rs * 1103515245u + 12345u; unsigned r = (*rs >> 8);
-    if (K <= K_LIST) {
+    if (K == K_QUEUE || K == K_STACK) {
+        /* queue: push at the back, pop at the front; stack: push and pop at the front */
+        static const char *qops[] = {"addlast", "addlast", "popfirst", "getat", "popfirst", "addlast", "clear"};
+        strcpy(o->op, qops[r % 7]); if (!strcmp(o->op, "clear") && (r >> 8) % 4) strcpy(o->op, "getat");
+        if (K == K_STACK && !strcmp(o->op, "addlast")) strcpy(o->op, "addfirst");
+        o->a = !strncmp(o->op, "add", 3) ? 1 + (int) ((r >> 12) % 9) : (int) ((r >> 12) % 3);
+    } else if (ISSEQ) {
         static const char *ops[] = {"addlast", "addlast", "addfirst", "popfirst", "poplast", "getat", "toarray", "walk", "clear", "addlast", "popfirst"};
         strcpy(o->op, ops[r % 11]); if (!strcmp(o->op, "clear") && (r >> 8) % 4) strcpy(o->op, "getat");
         o->a = !strncmp(o->op, "add", 3) ? 1 + (int) ((r >> 12) % 9) : (int) ((r >> 12) % 3);
@@ -276,7 +295,7 @@ static void *worker_stress(void *arg) {
             vh_buf fb = {0};
             snapshot(&fb); vh_bprintf(&fb, "%s", "");
             vh_bprintf(&sb, "{\"kind\":\"%s\",\"forced\":%ld,\"init\":%s,", kindname, forced, prev_final); forced = 0;
-            emit_ops(&sb, K >= K_HASHTBL);
+            emit_ops(&sb, !ISSEQ);
             vh_bprintf(&sb, ",\"final\":%s}", fb.p);
             vh_bflush(&sb);
             vh_free(prev_final); prev_final = fb.p;
@@ -368,7 +387,8 @@ int main(int argc, char **argv) {
     if (!strcmp(argv[1], "mutex")) { vh_install_handlers(); exit(run_mutex(atoi(argv[2]), argv[3])); }
     kindname = argv[2];
     K = !strcmp(kindname, "vector") ? K_VECTOR : !strcmp(kindname, "list") ? K_LIST : !strcmp(kindname, "hashtbl") ? K_HASHTBL
-      : !strcmp(kindname, "treetbl") ? K_TREETBL : !strcmp(kindname, "listtblu") ? K_LISTTBLU : K_LISTTBL;
+      : !strcmp(kindname, "treetbl") ? K_TREETBL : !strcmp(kindname, "listtblu") ? K_LISTTBLU : !strcmp(kindname, "queue") ? K_QUEUE
+      : !strcmp(kindname, "stack") ? K_STACK : K_LISTTBL;
     vh_install_handlers();
     if (!strcmp(argv[1], "sched") && argc >= 6) exit(run_sched(argv[3], argv[4], argv[5]));
     if (!strcmp(argv[1], "stress") && argc >= 8) exit(run_stress(atoi(argv[3]), atoi(argv[4]), atoi(argv[5]), (unsigned) atoi(argv[6]), argv[7]));
